@@ -90,6 +90,22 @@ class DataBase:
         """
         raise NotImplementedError("Remove Method not overriden")
 
+    def remove_by_id(self, index: int) -> bool:
+        """
+        Remove the data stored under a given index, returns a boolean stating if removal has been succesful.
+
+        Parameters
+        ----------
+        index : int
+            Index of the data to be removed.
+
+        Returns
+        -------
+        bool
+            Indicates whether an entry with that index existed and has been removed.
+        """
+        raise NotImplementedError("Remove by id Method not overriden")
+
     def all(self) -> tuple:
         """
         Get all data from the database.
